@@ -308,17 +308,113 @@ def make_spec(pid, title_rule):
         "pid": pid,
         "props_file": "props/%s.v" % pid,
         "suites": suites,
-        "keyfn": keyfn,
+        "extra": lambda tier, rng, workdir: race_extra(tier, rng, workdir),
+        "keyfn": lambda rc: race_key(rc) if rc.get("suite") == "txflow-race" else keyfn(rc),
         "trusted_base": [
             "Coq 8.16.1 kernel (coqc); vm_compute for evaluating model and monitors on the cases; no native_compute",
             "axioms: none declared; Print Assumptions recorded under print_assumptions",
             "hand-written model coq/model/TxFlow.v (+ MemPool.v) of processUnconfirmedTx / ProcessBlock / checkTxDelays / TxRepository / tx state store, tied to the code by the correspondence run on a real Node built in-package (real handlers, real ProcessBlock, the real checkTxDelays goroutine run for one period, ageing hooks for the clock)",
             "modelled, not verified: relevance is a boolean per tx (composition with the filter is C08), hashes are ids, the output fetcher answers in order, merkle tree library (C04), storage back end",
         ],
-        "assumptions": ["atomicity at the granularity of processUnconfirmedTx / ProcessBlock / one delay-check iteration (the tx repo lock is held across ProcessBlock); finer read-modify-write interleavings of checkTxDelays are not explored",
+        "assumptions": ["atomicity at the granularity of processUnconfirmedTx / ProcessBlock / one delay-check iteration for the THEOREMS (the tx repository lock is held across ProcessBlock, the tx state lock across a delay-check iteration and its sending); the interleavings the code must exclude by those locks are replayed on the real code with pause points in the harness (race_delay: conflict between the delay check's read and write; race_send: conflict while the safe update is being sent; race_block_tx: the tx thread handles the tx message of a tx first seen in a block while ProcessBlock is in the middle of it); other interleavings are not explored",
                         "no reorganisation in these histories (reorgs are covered by the sync model)",
                         "wall-clock period of the delay checker (100 ms) is a runtime fact"],
         "rule": title_rule,
         "accept_failure": accept,
         "monitors": MON,
     }
+
+# ---- goroutine races around the delay check (real code, pause points in the harness) ----
+def parse_events(ob):
+    """[1|2, txid, safe, unsafe, cancel, depth, proof, (n, outs...)]* -> list of dicts"""
+    evs, i = [], 0
+    while i < len(ob):
+        k = ob[i]
+        if k == 1:
+            n = ob[i + 7]
+            evs.append({"kind": 1, "t": ob[i + 1], "safe": ob[i + 2], "unsafe": ob[i + 3], "cancel": ob[i + 4]})
+            i += 8 + n
+        elif k == 2:
+            evs.append({"kind": 2, "t": ob[i + 1], "safe": ob[i + 2], "unsafe": ob[i + 3], "cancel": ob[i + 4]})
+            i += 7
+        elif k == 3:
+            i += 3
+        else:
+            i += 1
+    return evs
+
+
+def race_extra(tier, rng, workdir):
+    """race_delay: the delay check has READ a tx state and is about to write it back when a conflicting tx arrives
+    (pause point in the store).  race_send: the delay check is SENDING the safe update (the first handler is slow)
+    when a conflicting tx arrives; what the second handler sees is judged.  In both the tx must never be reported
+    safe after it was reported unsafe, nor safe and unsafe at once."""
+    cfg = {"txs": [[1, [1000], 1], [2, [1000, 1001], 1], [3, [1001], 0]], "delay": DELAY}
+    cases = []
+    for opn in ("race_delay", "race_send"):
+        for first, conflict, src in ((1, 2, 1), (1, 2, 0), (2, 1, 1), (2, 3, 1)):
+            cases.append({"cfg": cfg, "ops": [["setinsync", 1], ["tx", first, 0], ["advance", 75000],
+                                              [opn, first, conflict, src], ["unconf"], ["delaycheck"]]})
+    results, _ = vlib.run_harness("txflow", cases, workdir, tag="race")
+    failures = []
+    reached = {"race_delay": 0, "race_send": 0}
+    for c, r in zip(cases, results):
+        ob = r[3]
+        opn, t = c["ops"][3][0], c["ops"][3][1]
+        reached[opn] += ob[1] if len(ob) > 1 else 0
+        seen_unsafe = False
+        for ev in parse_events(ob[2:]) + parse_events(r[5][1:]):
+            if ev["t"] != t:
+                continue
+            if ev["safe"] and ev["unsafe"]:
+                failures.append(race_rec(c, r, 3, 101, "safe and unsafe both set"))
+                break
+            if ev["unsafe"] or ev["cancel"]:
+                seen_unsafe = True
+            elif ev["safe"] and seen_unsafe:
+                why = ("the delay check wrote back a stale copy of the state" if opn == "race_delay" else
+                       "the delay check's safe update was still being sent (not under the tx state lock) when the conflict was reported")
+                failures.append(race_rec(c, r, 3, 103, "tx %d reported safe after it was reported unsafe: %s" % (t, why)))
+                break
+    # the tx message of a tx first seen in a block, handled by the tx thread while ProcessBlock is in the middle of
+    # that tx: it must be delivered as new at most once, keep its confirmation, and not stay in the unconfirmed set
+    bcfg = {"txs": [[1, [1000], 1], [2, [1001], 1], [3, [1002], 0], [4, [1003], 1]], "delay": DELAY}
+    bcases, twins = [], []
+    for txids, t, src in (([1], 1, 0), ([3, 1, 2], 1, 1), ([2, 3, 4], 4, 0), ([4, 2], 2, 1)):
+        tail = [["unconf"], ["tx", t, 0], ["unconf"], ["block", 2, 1, [], 1], ["unconf"]]
+        bcases.append({"cfg": bcfg, "ops": [["setinsync", 1], ["race_block_tx", 1, 0, txids, t, src]] + tail})
+        twins.append({"cfg": bcfg, "ops": [["setinsync", 1], ["block", 1, 0, txids, 1], ["tx", t, src]] + tail})
+    bres, _ = vlib.run_harness("txflow", bcases + twins, workdir, tag="blockrace")
+    breached = 0
+    for c, r, tw in zip(bcases, bres[:len(bcases)], bres[len(bcases):]):
+        ob = r[1]
+        t = c["ops"][1][4]
+        breached += ob[1] if len(ob) > 1 else 0
+        evs = parse_events(ob[4:])
+        news = [e for e in evs if e["t"] == t and e["kind"] == 1]
+        later = [e for op, o in zip(c["ops"][2:], r[2:]) if op[0] in ("tx", "block") and o and o[0] == 0
+                 for e in parse_events(o[1:]) if e["t"] == t and e["kind"] == 1]
+        if ob[0] != 0 or ob[2] != 0 or ob[3] != 0:
+            failures.append(race_rec(c, r, 1, 105, "block / tx-thread race: an operation failed or got stuck (%s)" % ob[:4]))
+        elif len(news) + len(later) > 1:
+            failures.append(race_rec(c, r, 1, 104, "tx %d first seen in a block was delivered as new %d times: the tx thread handled "
+                                     "its tx message while ProcessBlock was in the middle of it" % (t, len(news) + len(later))))
+        elif [o for o in r[2:]] != [o for o in tw[3:]]:
+            failures.append(race_rec(c, r, 1, 106, "after the block / tx-thread race the node differs from 'block, then tx message' "
+                                     "(unconfirmed set / later notifications): %s instead of %s" % (r[2:], tw[3:])))
+    return {"failures": failures, "evaluations": len(cases) + len(bcases),
+            "coverage": {"rmw_race_scenarios": len(cases), "rmw_race_pause_point_reached": reached["race_delay"],
+                         "send_race_pause_point_reached": reached["race_send"],
+                         "block_tx_race_scenarios": len(bcases), "block_tx_race_pause_point_reached": breached}}
+
+
+def race_rec(c, r, step, code, what):
+    return {"suite": "txflow-race", "checker": "race", "step": step, "expected": [code], "observed": r[step], "cfg": c["cfg"],
+            "ops": c["ops"], "trace": r, "what": what}
+
+
+def race_key(rc):
+    ops = rc.get("ops") or []
+    st = rc.get("step", 3)
+    opn = ops[st][0] if len(ops) > st else "race_delay"
+    return "txflow:race:%s:%s" % ((rc.get("expected") or [0])[0], opn)
